@@ -2,6 +2,7 @@ import Props.C10
 import Props.Driver
 import DroopProofs.SplitB
 import DroopProofs.PermBMeek
+import DroopProofs.PermBPrf
 import DroopProofs.CaseInitMeek
 /-!
 # C10 at run level: the count does not depend on the order of the ballot lines (all seven Gregory rule names)
@@ -30,7 +31,10 @@ ballot credits in a distribution depends on the state only through the keep fact
 additions — one induction over a ranking (`foldRank_blind`) gives that two ballots' steps commute and that the step does not care how
 the list is stored; every other step of the driver never reads the ballot list.
 
-meek-prf and QPQ, equal rankings, and the file-level presentation (comments, layout, nicknames) are decided by re-running the real
+meek-prf (`prf_ballot_order`, `DroopProofs/PermBPrf.lean`): the same argument for the reference rule's distribution; it never reads
+equal rankings, so the statement has no hypothesis on the case at all.
+
+QPQ, equal rankings, and the file-level presentation (comments, layout, nicknames) are decided by re-running the real
 code (C10 check) and by the reader theorems of C15.
 -/
 namespace Droop.C10
@@ -114,6 +118,18 @@ theorem meek_ballot_order (p : Nat) (c : Case) (hr : c.rule = "meek" ∨ c.rule 
     exact meek_xB (fixedArith p) (fixed_lawful p) rfl hx _ _ _ h0
   · simp only [runRuleSt', hr]
     exact meek_xB (fixedArith p) (fixed_lawful p) rfl hx _ _ _ h0
+
+/-- **the order of the ballot lines is irrelevant, meek-prf** — no hypothesis on the case -/
+theorem prf_ballot_order (p : Nat) (c : Case) (hr : c.rule = "meek-prf")
+    {π : ∀ {β : Type}, List β → List β} (hπ : NatPerm π) :
+    runRuleSt (fixedArith p) (reorder π c) = (runRuleSt (fixedArith p) c).map (permB π) := by
+  have h1 : runRuleSt (fixedArith p) (reorder π c) = runRuleSt' (fixedArith p) c (permB π (initState (fixedArith p) c)) := by
+    unfold runRuleSt
+    rw [runRuleSt'_reorder, initState_reorder (fixedArith p) hπ]
+  rw [h1]
+  unfold runRuleSt
+  simp only [runRuleSt', hr]
+  exact prf_xB (fixedArith p) (XPrf_of_natPerm (fixedArith p) (fixed_lawful p) hπ) _ _
 
 /-! ## splitting one ballot line in two, merging two identical adjacent lines into one -/
 
